@@ -251,7 +251,7 @@ fn pmsgs(prop: &str) -> BoxedStrategy<Vec<PMsg>> {
         "C05" => proptest::collection::vec(
             prop_oneof![
                 16 => Just(PMsg::Record),
-                6 => (actor(), 0u32..60).prop_map(|(to, amt)| PMsg::BankSend { to, amt }),
+                6 => (actor(), prop_oneof![1 => Just(0u32), 7 => 1u32..60]).prop_map(|(to, amt)| PMsg::BankSend { to, amt }),
                 1 => (actor(), 1u32..60, any::<bool>()).prop_map(|(to, amt, padded)| PMsg::BankSend { to: if padded { 200 + to } else { 100 + to }, amt }),
                 4 => pref().prop_map(PMsg::ReExecute),
                 2 => pref().prop_map(PMsg::ReVote),
